@@ -174,6 +174,11 @@ def report(rep, specs, results, select, sigmap=None, label='write path'):
         else:
             real = wrun.realise(sp, nm)
         sig = (sigmap or {}).get(nm, 'W1.' + nm[:40])
+        if nm.startswith(('a file is renamed tmp.X -> X only after', 'close releases the open file')):
+            # order of close and rename: observed on the real build under strace
+            from checks import C02
+            rep.violation(nm, sig, 'fails in "%s": %s' % (sp['name'], str(m)[:300]), replay_body=C02.STRACE_REPLAY, bounds=sp['name'], sample={'model': str(m)[:400]})
+            continue
         if nm.startswith('only files this writer created and closed'):
             rep.violation(nm, sig, 'fails in "%s": %s' % (sp['name'], str(m)[:300]), replay_body=REPLAY_STALE, bounds=sp['name'], sample={'model': str(m)[:400]})
             continue
